@@ -44,6 +44,8 @@ def gen_cases(rng, tier: str) -> list[dict]:
         for j, p in enumerate(common.points_for(rng, e, 2 if origin != "budget" else 1)):
             if j == 1 and vs and rng.random() < 0.3:
                 p = {k: v for k, v in p.items() if k != rng.choice(vs)}
+            if rng.random() < 0.1:
+                p = dict(p, **{f"col{k}": float(k) for k in range(rng.choice([9, 10, 11, 12, 25, 60]))})     # many unrelated coordinates
             c = common.make_eval_case(origin, e, p)
             c["x"] = rng.choice(vs) if vs and rng.random() < 0.85 else "w"
             cases.append(c)
